@@ -171,6 +171,8 @@ def escapedComment(data: Union[bytes, str]) -> bytes:
     """
     Within comments the sequence C{-->} can be mistaken as the end of the comment.
     To ensure consistent parsing and valid output the sequence is replaced with C{--&gt;}.
+    The same is done for C{--!>}, and for a C{>} or C{->} at the very start of the
+    comment, which an HTML parser takes as the end of the comment as well.
     Furthermore, whitespace is added when a comment ends in a dash. This is done to break
     the connection of the ending C{-} with the closing C{-->}.
 
@@ -181,7 +183,9 @@ def escapedComment(data: Union[bytes, str]) -> bytes:
     """
     if isinstance(data, str):
         data = data.encode("utf-8")
-    data = data.replace(b"-->", b"--&gt;")
+    data = data.replace(b"-->", b"--&gt;").replace(b"--!>", b"--!&gt;")
+    if data.startswith((b">", b"->")):
+        data = data.replace(b">", b"&gt;", 1)
     if data and data[-1:] == b"-":
         data += b" "
     return data
